@@ -222,6 +222,30 @@ class X:
             v = None
         return v
 
+    def fork_call(self, fn, *args):
+        """(wrap configs) run the call in a forked child with free-recording; returns (ret, [freed block bytes, ...])"""
+        parts = ["FC", fn]
+        for a in args:
+            if a is None:
+                parts.append("n")
+            elif isinstance(a, Buf):
+                parts.append("b%d%+d" % (a.id, a.off) if a.off else "b%d" % a.id)
+            elif isinstance(a, Sym):
+                parts.append("s" + a.name)
+            else:
+                parts.append("x%x" % (int(a) & 0xFFFFFFFFFFFFFFFF))
+        rep = self._cmd(" ".join(parts))
+        f = rep.split(" ")
+        ret = int(f[1], 16) & 0xFFFFFFFF
+        log = bytes.fromhex(f[2]) if len(f) > 2 else b""
+        blocks = []
+        i = 0
+        while i + 8 <= len(log):
+            n = int.from_bytes(log[i:i + 8], "little")
+            blocks.append(log[i + 8:i + 8 + n])
+            i += 8 + n
+        return ret, blocks
+
     def tape(self, data=b"", mode=0):
         """generator tape state for Sym('x_tape_gen')"""
         data = bytes(data)
